@@ -20,8 +20,8 @@ import scipy.stats
 from harness import common as C
 
 PROP = "C17"
-TARGETS = ["IbicusModel.Props.C17"]
-GEN = []
+TARGETS = ["IbicusModel.Props.C17", "IbicusModel.Lemmas.GenPrecip", "IbicusModel.Props.C17Gen"]  # the audit imports all three
+GEN = ["Precip"]  # tier A: the models' fit / cdf / ppf and the factory, element-wise (translator/extract_precip.py)
 
 
 # ------------------------------------------------------------------ the rational test double
@@ -767,6 +767,9 @@ def run(tier, res, force_search=False):
         "scipy.stats.rv_continuous.cdf/ppf wrapper semantics (support handling, loc/scale, nan outside [0,1]) as modelled by Model.Precip.ratCdf / ratPpf?",
         "np.random.uniform(low, high) returns values in [low, high): the draws are captured in-process and handed to the model; theorems are for every draw in that range",
         "the maximum-likelihood / Nelder-Mead fits are outside the model (the model states which data they are given)",
+        "tier A (translator/extract_precip.py, Lemmas/GenPrecip.lean): element-wise reading of the vectorised methods - np.where(c, a, b)[i] = a[i] if c[i] else b[i], "
+        "distribution.cdf/ppf(v, *prm) and np.random.uniform(lo, hi, x.shape) act position by position (the draw is a function parameter of the requested range), "
+        "-np.inf is the only non-finite value (Model.Precip.ERat), attrs fills omitted constructor arguments with the field defaults and runs gt/ge/lt/le validators (ValueError)",
     ]
     res.assumptions = ["element-wise structure (sub-vectors, chunks, large vectors): the array forms of the model (Model.Precip.hurdleCdfL … censPostL, used by the driver) are element-wise by theorem "
                        "(Props.C17.*_select, arrays_chunkwise, izCdfL_no_zero); that the real methods have no size-gated or content-dependent shortcut is decided by the oracle on the real code (sub-vector / chunk comparison)",
